@@ -69,9 +69,10 @@ prop("C14", "other", "Lean 4 model as the single reference value + repeated/thre
 prop("C15", TV, "Lean 4 model + differential correspondence (proof in progress)",
      "Position-based sink policies (refactor-robust): result and accepted bytes of model vs crate; oracle with call-indexed scripts (short/fail/interrupted at every call index, chunk sizes 1..16): success => canonical bytes, failure => prefix.",
      "Model hand-written; tie is differential.", oracle=True)
-prop("C16", TV, "Lean 4 model + differential correspondence (proof in progress)",
-     "Descriptor deobfuscation of model vs crate (mapper and cache) on generated, corrupted, bounded-exhaustive (<= 3 params over 6 types) and arbitrary strings.",
-     "Model hand-written; tie is differential.")
+prop("C16", "proof", "Lean 4 theorems over the descriptor grammar (all descriptors, all lookup functions) + differential correspondence",
+     "Kernel-checked theorems: every valid descriptor (AST over primitives, object names without ';' and ')', arrays of any depth, any number of parameters) deobfuscates to exactly the rendered Java types for every class-lookup function; strings without '(' / ')' / return type / with an unterminated object type give none; mapper and cache agree on every string. The model function is tied to both Rust copies by the differential run (generated, corrupted, bounded-exhaustive and arbitrary strings).",
+     "Proof is about the Lean model of java.rs; the tie model<->code is differential. The code is lenient beyond the property (e.g. '(XI)V'); no theorem forbids that.",
+     theorems=["PG.C16_valid", "PG.C16_format", "PG.C16_none_no_open", "PG.C16_none_no_close", "PG.C16_none_no_return", "PG.C16_none_unterminated", "PG.C16_agree"])
 prop("C17", TV, "Lean 4 model + differential correspondence (proof in progress)",
      "Parse and Display of traces, frames, throwables: model vs crate; oracle: parse(print t) == t and reprint identical on the implementation.",
      "Model hand-written; tie is differential.", oracle=True)
